@@ -9,6 +9,7 @@ extern "C"
     int igc_vsprintf(char *s, const char *format, va_list ap);
     int igc_fdprintf(int fd, const char *format, ...);
     int igc_vfdprintf(int fd, const char *format, va_list args);
+    int igc_snprintf(char *buf, size_t maxlen, const char *format, ...);
 }
 static int call_vsprintf(char *buf, const char *fmt, ...)
 {
@@ -30,6 +31,7 @@ struct EntryCall
 {
     int which;
     char *buf;
+    size_t size; // snprintf only
     const char *fmt;
     template <class... A> int operator()(A... a)
     {
@@ -41,13 +43,15 @@ struct EntryCall
             return call_vsprintf(buf, fmt, a...);
         case 2:
             return igc_fdprintf(7, fmt, a...);
+        case 4:
+            return igc_snprintf(buf, size, fmt, a...);
         default:
             return call_vfdprintf(7, fmt, a...);
         }
     }
 };
-int run_entry(int which, char *buf, const char *fmt, const Args &a)
+int run_entry(int which, char *buf, size_t size, const char *fmt, const Args &a)
 {
-    EntryCall c{which, buf, fmt};
+    EntryCall c{which, buf, size, fmt};
     return dispatch(c, a);
 }
